@@ -191,14 +191,28 @@ func genCase(r *vh.Rand, paused bool) string {
 	if paused {
 		passes, delay = 1, 0
 	}
-	resp := fmt.Sprintf("%d:%d:%d", r.PickInt([]int{200, 200, 200, 204, 301, 404, 500}), r.PickInt([]int{0, 2, 2, 1000, 70000, 300000, 1200000}), delay)
+	// rdv: the target answers only when all instances of the pool have a request in flight, so that they shoot in step
+	rdv := r.Chance(1, 3) && !paused
+	if rdv && inst >= 3 && r.Chance(1, 2) {
+		passes *= 3 // several rounds of all instances shooting in step
+	}
+	resp := fmt.Sprintf("%d:%d:%d:%s", r.PickInt([]int{200, 200, 200, 204, 301, 404, 500}), r.PickInt([]int{0, 2, 2, 1000, 70000, 300000, 1200000}), delay, vh.B(rdv))
+	// the gun's shared-client block: absent (the default), present but disabled (per-instance clients, whatever client-number
+	// says: 0, the documented default 1, more than / fewer than the instances, negative), or enabled
+	sc := "n"
+	switch r.Intn(4) {
+	case 0:
+		sc = fmt.Sprintf("d%d", r.PickInt([]int{0, 1, 1, 1, 2, 3, 8, -1}))
+	case 1:
+		sc = fmt.Sprintf("e%d", r.PickInt([]int{0, 1, 1, 2, 3, 8, -1}))
+	}
 	pools := r.PickInt([]int{1, 1, 1, 2, 3})
 	late := r.Chance(1, 3) && !paused
 	pause := 0
 	if paused {
 		pause = r.PickInt([]int{1300, 1300, 1600})
 	}
-	line := fmt.Sprintf("wire %s %s %s %d %s %s %s %d %s %d %d %d", format, vh.B(ssl), vh.B(ka), inst, tgt, vh.B(r.Chance(1, 3)), resp, pools, vh.B(late), pause, passes, len(cfg))
+	line := fmt.Sprintf("wire %s %s %s %d:%s %s %s %s %d %s %d %d %d", format, vh.B(ssl), vh.B(ka), inst, sc, tgt, vh.B(r.Chance(1, 3)), resp, pools, vh.B(late), pause, passes, len(cfg))
 	if len(cfg) > 0 {
 		line += " " + strings.Join(cfg, " ")
 	}
